@@ -106,6 +106,9 @@ def r11_2(cx):
             fb, fa = folded[0]
             # same operands with b replaced by opposite_ascii_case(b)
             same = len(pa) == len(fa) and all((opp_of(y) == peel(x)) if opp_of(y) is not None else (peel(x) == peel(y)) for x, y in zip(pa, fa))
+            # every occurrence of the byte is folded in the twin (set_range(b, b) / set_range(fold(b), b) is not a twin)
+            folded_bytes = [opp_of(y) for y in fa if opp_of(y) is not None]
+            same = same and all(opp_of(y) is not None for x, y in zip(pa, fa) if peel(x) in folded_bytes)
             g = bool_gates(b, lambda x: tstr(x) == flag)
             guarded = bool(g) and not reachable_without(b, [fb], [e for gg in g for e in gg[2]])
             # when the flag is set, the folded registration follows the plain one before the next iteration / exit
